@@ -174,7 +174,7 @@ int c05_run(const char *tier) {
 		}
 	}
 	{ uint8_t hp[1] = {0}; const char *d = getenv("VERIF_DEPTH");
-	  e2_spec_t hs = { .harness = "c05.hist", .param = hp, .nparam = 1, .nevents = H_N, .max_depth = d ? atoi(d) : (thorough ? 5 : 4), .label = "c05.hist", .evname = hevname };
+	  e2_spec_t hs = { .harness = "c05.hist", .param = hp, .nparam = 1, .nevents = H_N, .max_depth = d ? atoi(d) : (thorough ? 5 : 4), .label = "c05.hist", .evname = hevname, .audit = thorough };
 	  e2_explore(&hs); states += hs.states; transitions += hs.transitions; execs += hs.execs; if (!hs.exhaustive) exhaustive = 0;
 	  char sb[200]; size_t o = 0; for (int i = 0; i <= hs.depth_completed + 1 && i < 16; i++) o += (size_t) snprintf(sb + o, sizeof sb - o, "%ld ", hs.states_by_depth[i]);
 	  rep_note("c05.hist (normal mode: commands, budget burst / release by the receiver, SecAck mirrors, node lost/new, system reset): %d events, depth %d, new states by depth: %s", H_N, hs.depth_completed, sb); }
